@@ -6,8 +6,8 @@ import docgen as D
 
 MODEL_TARGETS = ["model/Parse.vo", "model/SchemaJson.vo", "model/CanonicalForm.vo", "model/Freeze.vo"]
 COQ_TARGETS = ["props/C19.vo"]
-THEOREMS = [("C19", ["C19_parse_total", "C19_fp_total", "C19_json_total", "C19_freeze_total", "C19_freeze_keys", "C19_cyclecheck_linear"])]
-PROOF_FILES = ["proofs/SchemaTextProofs.v", "proofs/SchemaTotalProofs.v", "props/C19.v"]
+THEOREMS = [("C19", ["C19_parse_total", "C19_fp_total", "C19_json_total", "C19_freeze_total", "C19_freeze_keys", "C19_use_safe", "C19_cyclecheck_linear"])]
+PROOF_FILES = ["proofs/SchemaTextProofs.v", "proofs/SchemaTotalProofs.v", "props/C19.v", "proofs/SerSafetyProofs.v", "proofs/DeSafetyProofs.v"]
 TRUSTED_BASE = [
     "Coq 8.16.1 kernel; no axioms (Print Assumptions: closed)",
     "hand-written models Parse.v (raw.rs + parsing/mod.rs + check_for_cycles.rs), CanonicalForm.v, SchemaJson.v (serialize.rs), Freeze.v/Schema.v (self_referential.rs) tied by the correspondence run",
@@ -16,7 +16,7 @@ TRUSTED_BASE = [
     "extraction (ExtrOcamlBasic) + ocaml/driver.ml; Rust harness",
 ]
 ASSUMPTIONS = [
-    "'whenever freezing succeeds the schema can be used safely': proved part = every key of a frozen schema is in range (C19_freeze_keys); no-panic of serializer/deserializer on frozen schemas is C14_pool_inv / C04; the run exercises every frozen graph with hostile bytes and arbitrary presentations",
+    "'whenever freezing succeeds the schema can be used safely' is proved (C19_use_safe): on every graph freeze accepts neither the deserializer (any input, target, limits) nor the serializer (any value from a protocol-respecting Serialize impl) can panic, and the dynamic / ignoring consumer terminates within the explicit bound; the run additionally exercises every frozen graph with hostile bytes and arbitrary presentations on the crate",
 ]
 
 def text_to_ast(text):
